@@ -45,18 +45,50 @@ def make_case(rng, tier, k):
     elif u < 0.2:
         # concentric: centres coincide exactly
         k1, k2 = rng.choice(nw.KINDS), rng.choice(nw.KINDS)
-        st = rng.choice(["lattice", "moderate"])
-        s1 = nw.gen_collider(rng, k1, st, spread=3.0)
-        s2 = nw.gen_collider(rng, k2, st, spread=3.0)
+        st = rng.choice(["lattice", "moderate", "small", "small"])
+        if st == "small":    # feature sizes 0.02 .. 0.3
+            sz = [0.02, 0.03, 0.05, 0.08, 0.125, 0.2, 0.25, 0.3]
+            s1 = nw.gen_collider(rng, k1, "moderate", spread=3.0, sizes=sz)
+            s2 = nw.gen_collider(rng, k2, "moderate", spread=3.0, sizes=sz)
+        else:
+            s1 = nw.gen_collider(rng, k1, st, spread=3.0)
+            s2 = nw.gen_collider(rng, k2, st, spread=3.0)
         s2 = nw.translate_spec(s2, nw.center_of(s1) - nw.center_of(s2))
         if k2 == "hull":    # centre of a vertex hull = what Collider.center() returns (vertex mean): keep as is
             pass
         meta = dict(stream="concentric", kinds=[k1, k2], L=nw.scene_scale([s1, s2]))
+    elif u < 0.3:
+        # exact touching contact on the lattice: plane gap 0 along a lattice direction, centres aligned laterally
+        k1, k2 = rng.choice(nw.KINDS), rng.choice(nw.KINDS)
+        s1 = nw.gen_collider(rng, k1, "lattice", margin_prob=0.0)
+        s2 = nw.gen_collider(rng, k2, "lattice", margin_prob=0.0)
+        d = nw.rand_unit(rng, "lattice")
+        dc = nw.center_of(s1) - nw.center_of(s2)
+        s2 = nw.translate_spec(s2, dc - float(dc @ d) * d)
+        s2 = nw.translate_spec(s2, (nw.support_value(s1, d) + nw.support_value(s2, -d)) * d)
+        meta = dict(stream="touch", kinds=[k1, k2], dir=d.tolist(), L=nw.scene_scale([s1, s2]))
     else:
         kinds = nw.KINDS if rng.random() < 0.7 else ["box", "hull", "mesh"]
         s1, s2, meta = npn.gen_overlapping(rng, tier, kinds, margin_prob=0.15)
     meta["polytopes"] = bool(npn.is_polytope(s1) and npn.is_polytope(s2))
     return dict(c1=s1, c2=s2, ops=[dict(fn="mpr_pen")], meta=meta)
+
+
+F20_WHAT = ("mpr_penetration with coinciding centres: v0 is nudged to (2.2e-15, 0, 0), the absolute test |v0 x v1|^2 < EPSILON then "
+            "classifies every pair as 'origin on segment v0-v1' and the contact position is the midpoint of two unrelated support points, "
+            "outside the colliders")
+F22_WHAT = ("mpr_penetration, arm 'origin on segment v0-v1': the contact position is the midpoint of the two support points along the centre "
+            "line; when one collider is thinner along that line than half the penetration depth (flat shapes, a small collider deep inside a "
+            "large one) that midpoint lies outside it")
+
+
+def centres_coincide(c, L):
+    return float(np.linalg.norm(nw.center_of(c["c1"]) - nw.center_of(c["c2"]))) <= 1e-9 * L
+
+
+def width(spec, d):
+    d = np.asarray(d, float)
+    return nw.support_value(spec, d) + nw.support_value(spec, -d)
 
 
 def point_dist(spec, p):
@@ -146,7 +178,7 @@ def prepare(arg):
 def run(tier, seed, replay=None):
     R = cm.Run(PID, "translation_validation", tier, seed)
     R.cov["rule"] = ("case = ordered pair of colliders (10 kinds, optional Margin); streams: depth / lattice / deep / nested overlapping pairs "
-                     "(as in C07; overlap pre-checked by the harness' own float GJK), concentric (centres coincide exactly), gap (plane gap in "
+                     "(as in C07; overlap pre-checked by the harness' own float GJK), concentric (centres coincide exactly), touch (lattice colliders in exact touching contact), gap (plane gap in "
                      "{0, +-1e-9 .. 100}: touching, barely overlapping, separated); distinct by canonical hash; non-trivial = mpr_penetration "
                      "returned and its answer was judged by a certificate")
     R.assumptions += [
@@ -194,6 +226,11 @@ def run(tier, seed, replay=None):
                 R.failure("intersection=True with a missing or non-finite depth / direction / position", dict(c, result=r), site="mpr.mpr_penetration")
                 continue
             bump(outcome, "intersection")
+            if r.get("changed_after_next_query"):
+                bump(outcome, "result_changed_after_next_query")
+                R.failure("the returned depth / direction / position changed when another mpr query was made before they were read "
+                          f"(the result aliases internal state): {r['changed_after_next_query']}", dict(c, result=r), site="mpr.mpr_penetration")
+                continue
         else:
             bump(outcome, "no_intersection")
         to_judge.append((i, c, r))
@@ -236,6 +273,7 @@ def run(tier, seed, replay=None):
     for (i, role), v in zip(sslots, sv):
         sec.setdefault(i, {})[role] = v
     distinct = set()
+    known_cases = {}
     for i, v in zip(slots, verdicts):
         if v is None:
             continue
@@ -271,12 +309,32 @@ def run(tier, seed, replay=None):
             stats["refutations_certified"] += 1
         if problems:
             stats["failures"] += 1
-            R.failure("; ".join(problems), dict(c, result=r), site="mpr.mpr_penetration")
+            L = c["meta"].get("L") or nw.scene_scale([c["c1"], c["c2"]])
+            seg = bool(r.get("arms", {}).get("origin_on_v0v1_segment"))
+            only_pos = all(p_.startswith("contact position") for p_ in problems)
+            if seg and centres_coincide(c, L):
+                known_cases.setdefault("F20", []).append((i, problems[0]))
+            elif (seg and only_pos and pz["kind"] == "yes" and pz["ulen"] > 0.5 and
+                  min(width(c["c1"], r["dir"]), width(c["c2"], r["dir"])) < 0.5 * pz["t"]):
+                known_cases.setdefault("F22", []).append((i, problems[0]))
+            else:
+                R.failure("; ".join(problems), dict(c, result=r), site="mpr.mpr_penetration")
         else:
             stats["ambiguous"] += 1
             if len(R.notes) < 6:
                 R.notes.append(f"case {i}: certificate rejected but no violation confirmed by the oracle: "
                                f"{ {k: pz.get(k) for k in ('t', 'depth_or', 'overlap_or', 'dA', 'dB', 'tol')} } parts={ {k: v for k, v in s.items()} }")
+    known = {e["id"]: e for e in R.known}
+    for kid, what in (("F20", F20_WHAT), ("F22", F22_WHAT)):
+        lst = known_cases.get(kid, [])
+        if not lst:
+            continue
+        if kid in known:
+            R.known_finding(kid, f"{what}; {len(lst)} of {len(cases)} cases this run, e.g. {lst[0][1][:140]}")
+        else:
+            for i, w in lst[:5]:
+                R.failure(w + f" [{kid}: {what[:90]}...]", dict(cases[i], result=results[i]), site="mpr._find_penetration_segment")
+    R.cov["known_class_cases"] = {k: len(v) for k, v in known_cases.items()}
     R.cov["programs"] = len(judged)
     R.cov["disagreements_checked"] = stats["failures"] + stats["ambiguous"]
     R.cov["distinct_nontrivial"] = len(distinct)
